@@ -1,6 +1,6 @@
 """C15 - reads and no-op writes change nothing and leave nothing behind (DESIGN 4, C15)."""
 
-from .. import common, qast, refmodel, world as W
+from .. import common, ladder, qast, refmodel, world as W
 from .base import E1Check, viol
 from .c01 import std_ops
 from .c11 import wide_fault_ops
@@ -67,10 +67,38 @@ class C15(E1Check):
         )
 
     def configs(self):
-        return [
+        base = [
             {"name": "csv/auto", "storage": "csv", "auto_index": True},
             {"name": "csv/manual", "storage": "csv", "auto_index": False},
         ]
+        # ladder: a file beyond 64 KiB (1300 rows) for the access-mode probes; smaller rungs at depth 2
+        lad = ladder.configs(self.ladder_sizes()[:1], storages=("csv",), autos=(True, False), D=2)
+        lad += ladder.configs(self.ladder_sizes()[1:2], storages=("csv",), autos=(True, False), D=2 if self.tier != "quick" else 1, big_depth=1)
+        # a database opened with "w+" and filled beyond 64 KiB in the same session: reads must not touch the file
+        for c in ladder.configs((), storages=("csv",), autos=(True, False), D=1, big_depth=1):
+            d = dict(c)
+            d.update(name=c["name"] + "/mode=w+", csv={"access_mode": "w+"})
+            lad.append(d)
+        return base + lad
+
+    def ladder_op_list(self, cfg):
+        if cfg.get("csv", {}).get("access_mode") == "w+":
+            # no reopen-style probes here: opening with w+ truncates by definition
+            reads = [("getter", "all", False), ("getter", "iter"), ("len",), ("reindex",), ("read_storm",),
+                     ("count", ("cmp", "fields", ("v",), ">=", 3), None), ("get", ("cmp", "tags", ("i",), "==", "0"), None),
+                     ("getter", "get_timestamps", "big"), ("remove", ("cmp", "tags", ("i",), "==", "no-such"), None, "db"),
+                     ("update", ("cmp", "tags", ("i",), "==", "7"), W.mkspec(unset_tags="nokey"), None, "db")]
+            self._ladder_probes = set(reads[1:])
+            return reads
+        edges = [("read_storm",), ("count", ("cmp", "fields", ("v",), ">=", 3), None), ("getter", "get_timestamps", "big")]
+        probes = [p for p in self.write_probes] + self.mode_probes + [("getter", "all", False), ("getter", "iter"), ("len",), ("reindex",),
+                  ("count", ("cmp", "tags", ("i",), "==", "no-such"), None), ("get", ("cmp", "tags", ("i",), "==", "0"), None),
+                  ("remove", ("cmp", "tags", ("i",), "==", "no-such"), None, "db"),
+                  ("update", ("cmp", "tags", ("i",), "==", "no-such"), W.mkspec(tags={"a": "b"}), None, "db"),
+                  ("update", ("cmp", "tags", ("i",), "==", "7"), W.mkspec(unset_tags="nokey"), None, "db")]
+        have = set(edges)
+        self._ladder_probes = {p for p in probes if p not in have}
+        return edges + [p for p in probes if p not in have]
 
     def bounds(self):
         return {"N": 3, "D": 3} if self.tier == "quick" else {"N": 4, "D": 4, "max_states": 30000}
@@ -86,7 +114,7 @@ class C15(E1Check):
         return base + [p for p in self.read_probes + self.write_probes + self.faults + self.mode_probes if p in self.probe_set]
 
     def is_probe(self, op):
-        return op in self.probe_set
+        return op in self.probe_set or op in getattr(self, "_ladder_probes", ())
 
     def enabled(self, op, contents, cfg, history):
         if not super().enabled(op, contents, cfg, history):
